@@ -1,2 +1,8 @@
 #!/bin/sh
-exit 0
+# Builds the symbolic executor from /verif/engine, offline, with the repository's own toolchain.
+set -e
+cd "$(dirname "$0")"
+export GOFLAGS=-mod=mod GOPROXY=off
+mkdir -p bin work replays evidence
+(cd engine && go build -o ../bin/gosym .)
+echo "gosym built"
